@@ -268,6 +268,51 @@ func init() {
 						r.Ok(rule, key, p.Pos(x), "write to a local value (a copy)")
 						return true
 					}
+					// the pointer is a parameter of an unexported helper: every call in the package passes a variable that is
+					// fresh at the call (accountPacket(info, ts) inside `if updateInfo { … }`)
+					hasFreshHere := false
+					for _, fr := range freshes {
+						if fr.v == vo {
+							hasFreshHere = true
+						}
+					}
+					if !hasFreshHere && f.Lit == nil && f.Decl != nil && !ast.IsExported(f.Decl.Name.Name) {
+						if idx := paramIndex(f, vo); idx >= 0 {
+							fobj, _ := info.Defs[f.Decl.Name].(*types.Func)
+							sites, good, lastWhy := 0, 0, ""
+							for _, g := range p.FnList {
+								if g.Pkg != f.Pkg || g.Body() == nil || fobj == nil {
+									continue
+								}
+								inspectParents(g.Body(), func(y ast.Node, ps []ast.Node) bool {
+									c, isC := y.(*ast.CallExpr)
+									if !isC || p.Callee(g.Pkg, c) != fobj || idx >= len(c.Args) {
+										return true
+									}
+									sites++
+									ao := identObj(g.Pkg.TypesInfo, c.Args[idx])
+									if ao == nil {
+										lastWhy = "the call at " + p.Pos(c) + " does not pass a plain variable"
+										return true
+									}
+									if okS, w := pcapInfoFreshAt(p, pi, g, ao, c, ps); okS {
+										good++
+									} else {
+										lastWhy = "the call at " + p.Pos(c) + ": " + w
+									}
+									return true
+								})
+							}
+							if sites > 0 && sites == good {
+								r.Ok(rule, key, p.Pos(x), fmt.Sprintf("write through a parameter of a helper; each of its %d calls passes a PcapInfo that is fresh there", sites))
+								return true
+							}
+							if sites > 0 {
+								r.Check(false, rule, key, p.Pos(x), "", "a PcapInfo that may already be published is written through the parameter "+vo.Name()+" ("+lastWhy+")")
+								return true
+							}
+						}
+					}
 					ok, why := false, "no assignment of a fresh &PcapInfo{…} to "+vo.Name()+" in this function"
 					myGuards := guardsOf(parents, x)
 					for _, fr := range freshes {
@@ -301,4 +346,108 @@ func init() {
 			}
 			r.Floor(rule, 4, n)
 		})
+}
+
+// pcapInfoFreshAt: in function g the pointer variable vo holds, at node x (with the given parents), a PcapInfo that was
+// created in g: the node is dominated by `vo = &PcapInfo{…}`, or both lie under the same once-assigned boolean guard.
+func pcapInfoFreshAt(p *Prog, pi *types.Named, g *Fn, vo types.Object, x ast.Node, parents []ast.Node) (bool, string) {
+	info := g.Pkg.TypesInfo
+	guardsOf := func(parents []ast.Node, self ast.Node) map[types.Object]bool {
+		gs := map[types.Object]bool{}
+		for i, par := range parents {
+			is, ok := par.(*ast.IfStmt)
+			if !ok {
+				continue
+			}
+			var child ast.Node = self
+			if i+1 < len(parents) {
+				child = parents[i+1]
+			}
+			if child != ast.Node(is.Body) {
+				continue
+			}
+			if o := identObj(info, is.Cond); o != nil {
+				gs[o] = true
+			}
+		}
+		return gs
+	}
+	type fresh struct {
+		node   ast.Node
+		guards map[types.Object]bool
+	}
+	var freshes []fresh
+	inspectParents(g.Body(), func(y ast.Node, ps []ast.Node) bool {
+		as, ok := y.(*ast.AssignStmt)
+		if !ok || len(as.Lhs) != len(as.Rhs) {
+			return true
+		}
+		for i, rh := range as.Rhs {
+			ue, ok := ast.Unparen(rh).(*ast.UnaryExpr)
+			if !ok || ue.Op != token.AND {
+				continue
+			}
+			cl, ok := ast.Unparen(ue.X).(*ast.CompositeLit)
+			if !ok {
+				continue
+			}
+			if nt := namedOf(info.TypeOf(cl)); nt == nil || nt.Obj() != pi.Obj() {
+				continue
+			}
+			if identObj(info, as.Lhs[i]) == vo {
+				freshes = append(freshes, fresh{as, guardsOf(ps, as)})
+			}
+		}
+		return true
+	})
+	reassigned := func(o types.Object) int {
+		c := 0
+		ast.Inspect(g.Body(), func(y ast.Node) bool {
+			if as, ok := y.(*ast.AssignStmt); ok {
+				for _, l := range as.Lhs {
+					if sameObj(info, l, o) {
+						c++
+					}
+				}
+			}
+			return true
+		})
+		return c
+	}
+	ok, why := false, "no assignment of a fresh &PcapInfo{…} to "+vo.Name()+" in "+g.Key()
+	myGuards := guardsOf(parents, x)
+	var fl *Flow
+	for _, fr := range freshes {
+		if len(fr.guards) == 0 {
+			if fl == nil {
+				fl = p.Flow(g)
+			}
+			// the CFG node that contains x
+			target := x
+			if _, okPt := fl.at[x]; !okPt {
+				for i := len(parents) - 1; i >= 0; i-- {
+					if _, okPt := fl.at[parents[i]]; okPt {
+						target = parents[i]
+						break
+					}
+				}
+			}
+			res := fl.Reach([]Pt{fl.Entry()}, func(n ast.Node) bool { return n == target }, func(n ast.Node) bool { return n == fr.node })
+			if !res.Found {
+				ok, why = true, "dominated by "+vo.Name()+" = &PcapInfo{…}"
+			} else {
+				why = "a path reaches it without the fresh assignment (" + fl.traceString(res) + ")"
+			}
+			continue
+		}
+		for gd := range fr.guards {
+			if myGuards[gd] && reassigned(gd) == 1 {
+				ok, why = true, "both the fresh assignment and this point are guarded by `"+gd.Name()+"`, which is assigned once"
+			}
+		}
+		if !ok {
+			why = "the fresh assignment is conditional (guarded by a boolean) and this point is not under the same guard"
+		}
+	}
+	return ok, why
 }
